@@ -462,6 +462,65 @@ func walk(r *simkit.Run, prop string) {
 		}
 		beforeRows := readRows(obs)
 		beforeDump, _ := observe.ReadDB(obs)
+		// A fraction of the fault-free steps goes through the real CLI: the desired state is written as
+		// HCL and `atlas schema apply --auto-approve` reconciles the file database.
+		viaCLI := t.Chance("apply-through-cli", 1, 5) // drawn for every property so that one tape is one walk
+		if viaCLI && fault == "none" && r.Env != nil && r.Env.AtlasBin != "" && (prop == "C01" || prop == "C03") {
+			hcl, herr := sqlite.MarshalHCL(want)
+			if herr != nil {
+				r.Fail(prop, "plan", "desired-hcl-marshal-failed", "step %d: MarshalHCL of the desired schema failed: %v", step, herr)
+				return
+			}
+			hp := filepath.Join(dir, "desired.hcl")
+			os.WriteFile(hp, hcl, 0o644)
+			url := "sqlite://" + w.path + "?_busy_timeout=5000"
+			if w.fk {
+				url += "&_fk=1"
+			}
+			so, se, code := atlas(r.Env.AtlasBin, dir, "schema", "apply", "-u", url, "--to", "file://"+hp, "--auto-approve", "--tx-mode", mode)
+			r.Probe("step-applied-through-cli")
+			r.Nontrivial()
+			r.Logf("  cli schema apply (tx-mode %s) -> exit %d", mode, code)
+			r.Sample("  `atlas schema apply --to file://desired.hcl --auto-approve --tx-mode %s` -> exit %d %s", mode, code, errLine(so, se))
+			if strings.Contains(se, "goroutine ") && strings.Contains(se, "panic:") {
+				r.Fail(prop, "no-crash", "cli-panic/schema-apply", "step %d: schema apply panicked: %s", step, errLine(so, se))
+				return
+			}
+			if code != 0 {
+				r.Probe("cli-apply-failed")
+				if mode == "file" {
+					return // state unknown to the model only if it changed; C13 owns atomicity of this path
+				}
+				continue
+			}
+			r.Probe("successful-apply")
+			reached := "alter"
+			if rebuild {
+				reached = "rebuild"
+			}
+			switch prop {
+			case "C01":
+				// A second run right after must have nothing to do.
+				so2, se2, code2 := atlas(r.Env.AtlasBin, dir, "schema", "apply", "-u", url, "--to", "file://"+hp, "--auto-approve")
+				if code2 != 0 || !strings.Contains(so2, "Schema is synced") {
+					r.Fail(prop, "converged", "cli-second-apply-not-synced/"+reached, "step %d: a second `schema apply` right after a successful one is not a no-op (exit %d): %s\n%s", step, code2, errLine(so2, se2), firstLines(so2, 12))
+					return
+				}
+				fresh := map[string]bool{}
+				for _, c := range changes {
+					if a, ok := c.(*schema.AddTable); ok {
+						if _, existed := beforeCat[a.T.Name]; !existed {
+							fresh[a.T.Name] = true
+						}
+					}
+				}
+				checkConverged(ctx, r, w, obs, dir, desired, step, reached, fresh)
+			case "C03":
+				checkExports(ctx, r, w, dir, step, reached)
+				checkCLIExports(ctx, r, w, dir, url, step, reached)
+			}
+			continue
+		}
 		// Apply, the way `schema apply` does: ApplyChanges inside a transaction (file) or directly (none).
 		feq := &faultEQ{}
 		if fault == "statement-error" {
@@ -1032,4 +1091,80 @@ func upperTypes(st string) string {
 		st = strings.ReplaceAll(st, " "+ty, " "+strings.ToUpper(ty))
 	}
 	return st
+}
+
+func firstLines(s string, n int) string {
+	l := strings.Split(s, "\n")
+	if len(l) > n {
+		l = l[:n]
+	}
+	return strings.Join(l, "\n")
+}
+
+// checkCLIExports is the CLI half of the C03 oracle: what `atlas schema inspect` prints (HCL and
+// `--format '{{ sql . }}'`) describes exactly the database, and printing twice gives the same bytes.
+func checkCLIExports(ctx context.Context, r *simkit.Run, w *world, dir, url string, step int, reached string) {
+	const prop = "C03"
+	bin := r.Env.AtlasBin
+	h1, e1, c1 := atlas(bin, dir, "schema", "inspect", "-u", url)
+	h2, _, c2 := atlas(bin, dir, "schema", "inspect", "-u", url)
+	r.Probe("cli-export-check")
+	if c1 != 0 || c2 != 0 {
+		r.Fail(prop, "hcl-export", "cli-inspect-failed", "step %d: schema inspect failed: %s", step, errLine(h1, e1))
+		return
+	}
+	if h1 != h2 {
+		r.Fail(prop, "stable", "cli-hcl-differs-between-inspections", "step %d: two `schema inspect` runs on the unchanged database print different HCL", step)
+		return
+	}
+	drv, _ := sqlite.Open(w.db)
+	s1, err := drv.InspectSchema(ctx, "", nil)
+	if err != nil {
+		r.Fail(prop, "inspect", "inspect-failed", "step %d: InspectSchema failed: %v", step, err)
+		return
+	}
+	var s2 schema.Schema
+	if err := sqlite.EvalHCLBytes([]byte(h1), &s2, nil); err != nil {
+		r.Fail(prop, "hcl-export", "cli-eval-failed", "step %d: the HCL printed by schema inspect does not evaluate: %v\n%s", step, err, h1)
+		return
+	}
+	fwd, _ := drv.SchemaDiff(s1, &s2, schema.DiffNormalized())
+	back, _ := drv.SchemaDiff(&s2, s1, schema.DiffNormalized())
+	if len(fwd) > 0 || len(back) > 0 {
+		r.Fail(prop, "hcl-export", "cli-hcl-roundtrip-diff/"+reached, "step %d: evaluating the HCL printed by schema inspect does not give the database: forward [%s] backward [%s]\n%s", step, changeKinds(fwd), changeKinds(back), h1)
+		return
+	}
+	q1, e3, c3 := atlas(bin, dir, "schema", "inspect", "-u", url, "--format", "{{ sql . }}")
+	q2, _, _ := atlas(bin, dir, "schema", "inspect", "-u", url, "--format", "{{ sql . }}")
+	if c3 != 0 {
+		r.Fail(prop, "sql-export", "cli-sql-inspect-failed", "step %d: schema inspect --format sql failed: %s", step, errLine(q1, e3))
+		return
+	}
+	if q1 != q2 {
+		r.Fail(prop, "stable", "cli-sql-differs-between-inspections", "step %d: two `schema inspect --format '{{ sql . }}'` runs print different SQL", step)
+		return
+	}
+	p := filepath.Join(dir, "cliexport.db")
+	os.Remove(p)
+	edb := openDB(p, false)
+	defer edb.Close()
+	if strings.TrimSpace(q1) != "" {
+		if _, err := edb.Exec(q1); err != nil {
+			r.Fail(prop, "sql-export", "cli-export-not-executable/"+reached, "step %d: the SQL printed by schema inspect fails on an empty database: %v\n%s", step, err, q1)
+			return
+		}
+	}
+	obs, _ := observe.Open(w.path)
+	defer obs.Close()
+	live, err := ReadCatalog(obs)
+	if err != nil {
+		simkit.Harnessf("catalog: %v", err)
+	}
+	exp, err := ReadCatalog(edb)
+	if err != nil {
+		simkit.Harnessf("catalog: %v", err)
+	}
+	if d := DiffCatalogs(exp, live); d != "" {
+		r.Fail(prop, "sql-export", "cli-sql-export-catalog-differs/"+reached, "step %d: the database recreated from `schema inspect --format '{{ sql . }}'` differs from the original (live = recreated, want = original):\n%s", step, d)
+	}
 }
